@@ -5,6 +5,7 @@ import (
 	"math/big"
 
 	"github.com/idena-network/idena-go/blockchain/attachments"
+	"github.com/idena-network/idena-go/core/state"
 	"github.com/idena-network/idena-go/verifutil"
 	"github.com/idena-network/idena-go/vm/embedded"
 
@@ -156,14 +157,59 @@ func (w *World) TwinSeq(t *Replica, txs []*types.Transaction) (*TwinResult, erro
 // GasSweepSeqs looks for a contract call that succeeds at the current head and returns
 // sequences [the same call with a gas limit k units short, a contract tx that succeeds] of one
 // sender: a failure in the middle of an execution followed by a success in the same block.
+// SweepSeq is one fail-then-success sequence of a signer O with a third party in between:
+// [call with dest=Victim k gas units short, Send O->Victim, successful contract tx], and the
+// baseline [Send O->Victim] alone.
+type SweepSeq struct {
+	Full   []*types.Transaction
+	Base   []*types.Transaction
+	Victim common.Address
+	Signer common.Address
+}
+
+// GasSweepTriples is GasSweepSeqs with an ordinary transfer to the call's destination between
+// the failing and the succeeding contract tx.
+func (w *World) GasSweepTriples(r *verifutil.Rng, t *Replica, maxSeqs int) []*SweepSeq {
+	var out []*SweepSeq
+	st := w.View().AppState.State
+	feeRate := st.FeePerGas()
+	for _, pair := range w.gasSweep(r, t, maxSeqs, true) {
+		short, ok := pair.txs[0], pair.txs[1]
+		o := w.ByAddr[senderOf(short)]
+		if o == nil {
+			continue
+		}
+		victim := pair.dest
+		amt := Dna(int64(r.Range(3, 40)))
+		mid := SignedTx(o, types.SendTx, &victim, amt, new(big.Int).Add(new(big.Int).Mul(feeRate, big.NewInt(20000)), big.NewInt(1000)), nil, short.AccountNonce+1, short.Epoch, nil)
+		okTx := SignedTx(o, ok.Type, ok.To, ok.Amount, ok.MaxFee, nil, short.AccountNonce+2, ok.Epoch, ok.Payload)
+		baseMid := SignedTx(o, types.SendTx, &victim, amt, mid.MaxFee, nil, short.AccountNonce, short.Epoch, nil)
+		out = append(out, &SweepSeq{Full: []*types.Transaction{short, mid, okTx}, Base: []*types.Transaction{baseMid}, Victim: victim, Signer: o.Addr})
+	}
+	return out
+}
+
+type sweepPair struct {
+	txs  []*types.Transaction
+	dest common.Address
+}
+
 func (w *World) GasSweepSeqs(r *verifutil.Rng, t *Replica, maxSeqs int) [][]*types.Transaction {
+	var out [][]*types.Transaction
+	for _, p := range w.gasSweep(r, t, maxSeqs, false) {
+		out = append(out, p.txs)
+	}
+	return out
+}
+
+func (w *World) gasSweep(r *verifutil.Rng, t *Replica, maxSeqs int, knownDest bool) []sweepPair {
 	v := w.View()
 	st := v.AppState.State
 	feeRate := st.FeePerGas()
 	if feeRate.Sign() == 0 {
 		return nil
 	}
-	var out [][]*types.Transaction
+	var out []sweepPair
 	for _, c := range contractsByWorld[w] {
 		if len(out) >= maxSeqs {
 			break
@@ -172,6 +218,14 @@ func (w *World) GasSweepSeqs(r *verifutil.Rng, t *Replica, maxSeqs int) [][]*typ
 			continue
 		}
 		dest := w.anyAddr(r)
+		if knownDest {
+			// a third party with an account of its own
+			v := w.pickActor(r, func(a *Actor, _ state.Identity) bool { return a != c.Owner && st.GetBalance(a.Addr).Sign() > 0 && st.GetCodeHash(a.Addr) == nil })
+			if v == nil {
+				continue
+			}
+			dest = v.Addr
+		}
 		for _, att := range []*attachments.CallContractAttachment{
 			attachments.CreateCallContractAttachment("transfer", dest.Bytes(), big.NewInt(int64(r.Range(1, 1000))).Bytes()),
 			attachments.CreateCallContractAttachment("add", dest.Bytes()),
@@ -211,7 +265,7 @@ func (w *World) GasSweepSeqs(r *verifutil.Rng, t *Replica, maxSeqs int) [][]*typ
 				}
 				short := mk(g-k, nonce)
 				ok := SignedTx(c.Owner, types.DeployContractTx, nil, new(big.Int).Add(minStake, big.NewInt(int64(k))), new(big.Int).Mul(feeRate, big.NewInt(200000)), nil, nonce+1, ep, dpl)
-				out = append(out, []*types.Transaction{short, ok})
+				out = append(out, sweepPair{[]*types.Transaction{short, ok}, dest})
 			}
 			break
 		}
